@@ -12,6 +12,10 @@ for f in $OTHERS; do
   ( gcc $CF -c "$REPO/$f.c" -o "$OUT/$f.o" 2> "$OUT/$f.err" || { cat "$OUT/$f.err" >&2; exit 1; } ) &
   pids+=($!)
 done
+( gcc $CF -c "$REPO/radsecproxy.c" -o "$OUT/rsp_plain.o" 2> "$OUT/rsp_plain.err" || { cat "$OUT/rsp_plain.err" >&2; exit 1; } ) &
+pids+=($!)
+( gcc $CF -c "$V/harness/hcook.c" -o "$OUT/hcook.o" 2> "$OUT/hcook.err" || { cat "$OUT/hcook.err" >&2; exit 1; } ) &
+pids+=($!)
 ( gcc $CF -c "$V/harness/hmain.c" -o "$OUT/hmain.o" 2> "$OUT/hmain.err" || { cat "$OUT/hmain.err" >&2; exit 1; } ) &
 pids+=($!)
 rc=0
@@ -22,4 +26,7 @@ objs=""; for f in $OTHERS; do objs="$objs $OUT/$f.o"; done
 gcc $CF $WRAP "$OUT/hmain.o" $objs -o "$OUT/hmain" -lssl -lcrypto -lnettle -lresolv
 # the DNS record parsers alone (dns.c is included by the harness so that its statics are reachable)
 gcc $CF "$V/harness/hdns.c" "$OUT/debug.o" "$OUT/util.o" -o "$OUT/hdns" -lresolv -lssl -lcrypto
+# the DTLS cookie callbacks (tlscommon.c is included by the harness so that its statics are reachable)
+cobjs=""; for f in $OTHERS; do [ $f = tlscommon ] || cobjs="$cobjs $OUT/$f.o"; done
+gcc $CF "$OUT/hcook.o" "$OUT/rsp_plain.o" $cobjs -o "$OUT/hcook" -lssl -lcrypto -lnettle -lresolv
 echo ok > "$OUT/.built"
